@@ -106,7 +106,7 @@ def _clone(v, memo):
             return memo[id(v)]
         n = SList(v.ref, v.length, v.fn, None, v.kind)
         n.transients = dict(getattr(v, 'transients', {}) or {})
-        for extra in ('slice_of', 'split_points'):
+        for extra in ('slice_of', 'split_points', 'role_tag'):
             if extra in v.__dict__:
                 setattr(n, extra, v.__dict__[extra])
         memo[id(v)] = n
@@ -782,6 +782,11 @@ class Executor:
         lst.length = length
         lst.kind = kind if not kind.startswith('optarr') else lst.kind
         lst.fn = sym_elem_fn(kind, state)
+        tag = lst.__dict__.get('role_tag')
+        if tag is not None:
+            # ghost index roles declared for the elements of this list survive the abstraction of the loop
+            from vt.e1.sle_contracts import tag_list
+            tag_list(lst, tag)
 
     def havoc_value(self, v, state, nm, grows=False):
         if isinstance(v, bool) or isinstance(v, z3.BoolRef):
